@@ -79,6 +79,9 @@ func (f *frame) callTarget(cc *ssa.CallCommon, fnVal *Value, args []Value, n *no
 	site := fmt.Sprintf("%s#%d", shortKey(key), f.callSeq[key])
 	// in-body assertions before this call
 	if f.c != nil {
+		if len(f.c.CallAsserts[site]) > 0 {
+			x.hitSites[site] = true
+		}
 		for _, a := range f.c.CallAsserts[site] {
 			sc := x.newSpecCtx(f, n, st, x.entryState)
 			sc.anchor = pos
